@@ -26,6 +26,7 @@ import (
 
 	"github.com/pkg/errors"
 
+	"github.com/oxia-db/oxia/common/compare"
 	"github.com/oxia-db/oxia/common/concurrent"
 	"github.com/oxia-db/oxia/common/constant"
 	time2 "github.com/oxia-db/oxia/common/time"
@@ -86,6 +87,17 @@ func (n *notifications) Deleted(key string) {
 
 func (n *notifications) DeletedRange(keyStartInclusive, keyEndExclusive string) {
 	if strings.HasPrefix(keyStartInclusive, constant.InternalKeyPrefix) {
+		return
+	}
+	// The notifications of a batch are keyed by key. An empty range deletes nothing: recording it
+	// would only replace what the batch already says about the start key itself.
+	if compare.CompareWithSlash([]byte(keyStartInclusive), []byte(keyEndExclusive)) >= 0 {
+		return
+	}
+	// Two ranges with the same start key: keep the one that covers both.
+	if prev, ok := n.batch.Notifications[keyStartInclusive]; ok &&
+		prev.Type == proto.NotificationType_KEY_RANGE_DELETED && prev.KeyRangeLast != nil &&
+		compare.CompareWithSlash([]byte(*prev.KeyRangeLast), []byte(keyEndExclusive)) >= 0 {
 		return
 	}
 	n.batch.Notifications[keyStartInclusive] = &proto.Notification{
